@@ -482,6 +482,10 @@ def run(ctx: core.Ctx):
                 "array_distinct and maps as multisets; dates/timestamps as ISO strings in UTC; a MAP returned as Row is "
                 "compared by entries. NULL-row differences count only where Spark itself returns NULL. "
                 "T3b evaluation = one modelled call on one row, checked against both Coq models.",
+        "explanation": "PARTIAL by nature: machine-checked theorems cover only the emulations sqlframe itself writes for DuckDB "
+                       "(21 functions: C17_partial / C17_refuted_* on shapes regenerated from the source); for the other exercised "
+                       "functions sqlframe merely names a sqlglot node, so agreement with Spark is engine-vs-engine and is decided by "
+                       "differential comparison with values recorded from PySpark 3.5.9 -- sampled inputs, not a proof",
         "functions_exported": len(exported),
         "proved": {"count": len(proved_here), "functions": proved_here,
                    "note": "emulations with a Coq theorem instantiated on regenerated facts (slice: the theorem characterises the defect)"},
